@@ -14,6 +14,7 @@
 #include "cppcms_error_category.h"
 #include <cppcms/json.h>
 #include "http_parser.h"
+#include <booster/verif_trace.h>
 #include <cppcms/config.h>
 #include <cppcms/util.h>
 #include <string.h>
@@ -257,6 +258,7 @@ namespace cgi {
 
 				total_read_+=n;
 				input_body_.resize(n);
+				BOOSTER_VERIF_EMIT("\"e\":\"Read\",\"api\":\"http\",\"n\":%lu",(unsigned long)n);
 			}
 			else {
 				total_read_+=input_body_.size() - input_body_ptr_;
